@@ -12,7 +12,7 @@ Directives (each on its own line inside a template):
   //%%head                       lines spliced as first statements of the body
   //%%insert before|after #k /regex/      lines spliced before/after the k-th body line matching regex
   //%%loop N                     lines spliced between the N-th loop header and its '{'
-  //%%rewrite #count /regex/ => replacement ## reason     declared rewrite on the function text
+  //%%rewrite #count /regex/ => replacement ## reason     declared rewrite on the function text (#? = at most once, may be absent)
   //%end
 
 Contract clauses carry tags  /*[C08,C06 name]*/  at the start of a line; the generator records the
@@ -223,6 +223,11 @@ def extract_fn(spec):
 def apply_declared_rewrites(text, spec, info):
     for count, rx, repl, reason in spec.rewrites:
         new, n = re.subn(rx, repl, text)
+        if count == -1 and n <= 1:      # `#?`: the construct may be absent (0 or 1 occurrence)
+            if n:
+                info['rewrites'].append('declared:/%s/=>%s (%s)' % (rx, repl, reason))
+            text = new
+            continue
         if n != count:
             raise GenError('declared rewrite /%s/ in %s matched %d times, expected %d (code shape changed)' % (rx, spec.key, n, count))
         info['rewrites'].append('declared:/%s/=>%s (%s)' % (rx, repl, reason))
@@ -381,10 +386,10 @@ def process(tpl_path, flags, g=None, seen=None):
                     cur.loops[int(arg)] = lst
                     section = lst
                 elif d == 'rewrite':
-                    mm = re.match(r'#(\d+)\s+/(.*)/\s*=>\s*(.*?)\s*##\s*(.*)$', arg)
+                    mm = re.match(r'#(\d+|\?)\s+/(.*)/\s*=>\s*(.*?)\s*##\s*(.*)$', arg)
                     if not mm:
                         raise GenError('bad rewrite directive at %s' % origin)
-                    cur.rewrites.append((int(mm.group(1)), mm.group(2), mm.group(3), mm.group(4)))
+                    cur.rewrites.append((-1 if mm.group(1) == '?' else int(mm.group(1)), mm.group(2), mm.group(3), mm.group(4)))
                     section = None
                 else:
                     raise GenError('unknown directive %s at %s' % (d, origin))
